@@ -26,6 +26,18 @@ def settle (s : State) : State :=
     | some x => if inRegistry s c && x.cancelled then step s (.actorExit c) else s
     | none => s) s
 
+/-- Loop iterations of every cancelled registered actor, with the code's arm priority, while the
+client of `k` keeps writing (`more` further frames arrive, one per round). -/
+def actorRound (s : State) : State :=
+  (List.range s.nextCid).foldl (fun s c =>
+    match s.conns c with
+    | some x => if inRegistry s c && x.cancelled then step s (.actorStep c) else s
+    | none => s) s
+
+def settleSteps (k : Nat) : Nat → State → State
+  | 0, s => actorRound s
+  | more + 1, s => settleSteps k more (actorRound (step s (.arrive k)))
+
 def applyOp (acc : State × List String) (toks : List String) : Option (State × List String) :=
   let (s, rs) := acc
   let gated (k : Nat) (p : Phase) (op : Op) : Option (State × List String) :=
@@ -41,6 +53,24 @@ def applyOp (acc : State × List String) (toks : List String) : Option (State ×
   | ["close", k] => do
     let k ← k.toNat?
     if phaseIs s k .registered then some (step s (.actorExit k), rs ++ ["ok"]) else some (s, rs ++ ["-"])
+  | ["load", k, dst, n, sel, mode] => do
+    let k ← k.toNat?
+    let dst ← dst.toNat?
+    let n ← n.toNat?
+    if dst ≥ 4 || n > 2000 || !(sel == "c" || sel == "*") || !(mode == "b" || mode == "f") then none else
+    if !(phaseIs s k .registered) then some (s, rs ++ ["-"]) else
+    match s.conns k with
+    | none => some (s, rs ++ ["-"])
+    | some x =>
+      -- the backlog is in the socket (flood: some frames, and more keep coming afterwards)
+      let pre := if mode == "f" then 64 else n
+      let s1 := (List.range pre).foldl (fun s _ => step s (.arrive k)) s
+      let h0 := s1.handled k
+      let s2 := step s1 (.disconnect x.owner (if sel == "c" then some k else none))
+      let r := s2.results.getLast?.getD false
+      let s3 := settleSteps k (if mode == "f" then 16 else 0) s2
+      let tag := if s3.handled k > h0 + 2 then "served" else if inRegistry s3 k then "open" else "q"
+      some (s3, rs ++ [s!"{r}+{tag}"])
   | ["disc", id, sel] => do
     let id ← id.toNat?
     if id ≥ 4 then none else
